@@ -43,6 +43,7 @@ func main() {
 	bf := fs.Uint("bf", 0, "fix branch factor")
 	nk := fs.Int("nk", 0, "fix key universe")
 	profile := fs.String("profile", "general", "operation mix")
+	big := fs.Int("big", 0, "every big-th case uses a large tree (0 = never)")
 	fs.Parse(os.Args[2:])
 	_ = in
 	switch fam {
@@ -55,6 +56,12 @@ func main() {
 				fixed = &mapCfg{Bf: *bf, NK: *nk, NV: 2, KT: *kt, VT: *vt, NF: *nf, Cache: *cache, Src: "random"}
 			}
 			randomMapTrace(i+1, *seed*1000003+int64(i), *steps, enc, fixed, *profile)
+		}
+	case "diff":
+		enc, done := openOut(*out)
+		defer done()
+		for i := 0; i < *n; i++ {
+			diffCase(i+1, *seed*1000003+int64(i), enc, *big > 0 && i%*big == 0)
 		}
 	default:
 		fmt.Fprintln(os.Stderr, "unknown family "+fam)
